@@ -1308,7 +1308,7 @@ func IntToGoInt(val Value) (int, bool) {
 
 // Converts an Elk value to Go int.
 // Returns (0, false) when the value is incompatible.
-// Returns (-1, false) when the value is a BigInt too large to be converted to int.
+// Returns (-1, false) when the value is a BigInt or an unsigned integer too large to be converted to int.
 func ToGoInt(val Value) (int, bool) {
 	if val.IsReference() {
 		switch v := val.AsReference().(type) {
@@ -1318,6 +1318,9 @@ func ToGoInt(val Value) (int, bool) {
 			}
 			return int(v.ToSmallInt()), true
 		case UInt64:
+			if uint64(v) > math.MaxInt {
+				return -1, false
+			}
 			return int(v), true
 		}
 		return 0, false
@@ -1341,8 +1344,14 @@ func ToGoInt(val Value) (int, bool) {
 	case UINT32_FLAG:
 		return int(val.AsUInt32()), true
 	case UINT64_FLAG:
+		if uint64(val.AsInlineUInt64()) > math.MaxInt {
+			return -1, false
+		}
 		return int(val.AsInlineUInt64()), true
 	case UINT_FLAG:
+		if uint64(val.AsUInt()) > math.MaxInt {
+			return -1, false
+		}
 		return int(val.AsUInt()), true
 	}
 	return 0, false
